@@ -1,0 +1,52 @@
+//go:build verif
+
+// Verification hook H5 (trie-sync part). Compiled only with `-tags verif`; add-only, no
+// existing file is touched and nothing here is reachable from a production build.
+//
+// trie.Sync.Process trusts the hash its caller supplies, so the clause "data that does not
+// hash to what was requested is rejected" lives in the unexported
+// (*trieSync).processNodeData (triesync.go:506). The deterministic simulator in /verif must
+// run that real function, not a copy of it; this file only makes it callable without a
+// Downloader, peers or goroutines.
+
+package downloader
+
+import (
+	"github.com/youchainhq/go-youchain/common"
+	"github.com/youchainhq/go-youchain/core/types"
+	"github.com/youchainhq/go-youchain/trie"
+	"github.com/youchainhq/go-youchain/youdb"
+	"golang.org/x/crypto/sha3"
+)
+
+// SimTrieSync is a bare trieSync: exactly the fields processNodeData and commit touch are
+// initialised, the same way newTrieSync initialises them. The Downloader behind it is a zero
+// value that only lends its statistics fields to updateStats (KindState commits).
+type SimTrieSync struct{ s *trieSync }
+
+// NewSimTrieSync builds the wrapper around a scheduler and its backing database.
+func NewSimTrieSync(kind types.TrieKind, db youdb.Database, sched *trie.Sync) *SimTrieSync {
+	return &SimTrieSync{s: &trieSync{
+		d:         &Downloader{},
+		kind:      kind,
+		backingDb: db,
+		sched:     sched,
+		keccak:    sha3.NewLegacyKeccak256(),
+		tasks:     make(map[common.Hash]*trieTask),
+	}}
+}
+
+// ProcessNodeData feeds one delivered blob to the real processNodeData. On success it does
+// the uncommitted-data accounting that process() does for the same outcome (triesync.go:468-470),
+// so that the real commit(false) threshold keeps its meaning.
+func (t *SimTrieSync) ProcessNodeData(blob []byte) (bool, common.Hash, error) {
+	committed, hash, err := t.s.processNodeData(blob)
+	if err == nil {
+		t.s.numUncommitted++
+		t.s.bytesUncommitted += len(blob)
+	}
+	return committed, hash, err
+}
+
+// Commit calls the real commit (membatch -> one database batch).
+func (t *SimTrieSync) Commit(force bool) error { return t.s.commit(force) }
